@@ -37,6 +37,7 @@ inline void fillOptions(Req& r, unsigned archFlag) {
 	r.ctx.arch = archFlag;
 	r.ctx.nonFinite = c.geti("nonfinite", archFlag == mz::A_MP ? 1 : 0) != 0;
 	r.ctx.xmlText = archFlag == mz::A_XML;
+	r.ctx.xmlCr = c.geti("xmlcr", 0) != 0;
 	r.ctx.emptyEqualsNull = archFlag == mz::A_XML || archFlag == mz::A_CSV;
 	r.ctx.textNoEdgeSpace = c.geti("noedgespace", 0) != 0;
 	r.ctx.maxSize = int(c.geti("maxsize", 4));
